@@ -121,6 +121,21 @@ def run(A, R: Report, thorough: bool):
                 problems.append('not guarded by the new task having no data (a second migration would overwrite)')
         R.check(not problems, 'R20.2', construct, key_of('copy', sorted(set(problems))), 'old -> new copy under all three guards', '; '.join(sorted(set(problems))), where=where(f, e.site))
 
+    # ---- R20.2b nothing else skips a task
+    R.rule('R20.2b', 'inside the migration loop a task is skipped only because it is in-memory, has no source data, or already has target data', floor=1)
+    loops = [n for n in A.typer.own_nodes(f) if isinstance(n, ast.For) and any(o in src(n.iter) for o in old_names)]
+    R.require(loops, 'anchor: loop over the old chain not found in migrate_to_parameter_mode')
+    n_skip = 0
+    for lp in loops:
+        for n in ast.walk(lp):
+            if isinstance(n, ast.If) and any(isinstance(b, ast.Continue) for b in n.body):
+                n_skip += 1
+                t = src(n.test)
+                ok = ('InMemoryData' in t and 'issubclass' in t) or t.endswith('.has_data') or (t.startswith('not ') and t.endswith('.has_data')) or t == dry_param
+                R.check(ok, 'R20.2b', f'migrate_to_parameter_mode: skip `{t[:60]}`', key_of('skip', t), 'legitimate skip',
+                        f'a task that has a stored result is skipped under `{t}`: its result is not carried over', where=where(f, n))
+    R.require(n_skip >= 2, 'anchor: expected the in-memory / no-data / already-there skips in the migration loop')
+
     # ---- R20.3
     R.rule('R20.3', 'the config rebuilt for the target dir carries the source config\'s file path, part, global vars and context', floor=1)
     ctors = [n for n in A.typer.own_nodes(f) if isinstance(n, ast.Call) and src(n.func) == 'Config']
@@ -139,6 +154,10 @@ def run(A, R: Report, thorough: bool):
         if 'context' not in kws.get('context', ''):
             problems.append('context not propagated')
         R.check(not problems, 'R20.3', 'migrate_to_parameter_mode: Config(...)', key_of('config-identity', sorted(problems)), 'path, part, global_vars, context propagated', '; '.join(problems), where=where(f, c))
+
+    # ---- R20.5 key derivation is stateless
+    from .purity import check_key_stateless
+    check_key_stateless(A, R, 'R20.5')
 
     # ---- R20.4
     R.rule('R20.4', 'old and new tasks are paired by full name; nothing in the migration can run a task', floor=2)
